@@ -110,6 +110,15 @@ def check_signed(inp, out, alg, kid, pub, n_new=1):
     return problems, info
 
 
+_decoys = {}
+
+
+def _decoy_key(alg):
+    if alg not in _decoys:
+        _decoys[alg] = CO.gen_key(alg)
+    return _decoys[alg]
+
+
 def judge(case, acc, ctx):
     desc, alg, kid = case["desc"], case["alg"], case["kid"]
     enc, ctxform, route = case.get("enc", "pem"), case.get("ctxform", "path"), case.get("route", "main")
@@ -125,7 +134,12 @@ def judge(case, acc, ctx):
             return
         kd = os.path.join(d, "keys dir" if ctxform == "json" else "keys")
         os.makedirs(kd)
-        CO.write_key(key, kd, "signer", enc)
+        # every third case: the key is named "signer.v2" and a DIFFERENT key of the same type named "signer" lies beside it (same encoding)
+        kname = "signer"
+        if (kid + len(data)) % 3 == 0:
+            kname = "signer.v2"
+            CO.write_key(_decoy_key(alg), kd, "signer", enc)
+        CO.write_key(key, kd, kname, enc)
         inp, out = os.path.join(d, "in.suit"), os.path.join(d, "out.suit")
         with open(inp, "wb") as fh:
             fh.write(data)
@@ -133,9 +147,9 @@ def judge(case, acc, ctx):
         raised = None
         try:
             if route == "main":
-                sut.sign_single(inp, out, "signer", kid, alg, context)
+                sut.sign_single(inp, out, kname, kid, alg, context)
             else:
-                ok, r = sut.cli_ok(["sign", "single-level", "--input-envelope", inp, "--output-envelope", out, "--key-name", "signer",
+                ok, r = sut.cli_ok(["sign", "single-level", "--input-envelope", inp, "--output-envelope", out, "--key-name", kname,
                                     "--key-id", hex(kid) if kid % 2 else str(kid), "--alg", alg, "--context", context,
                                     "--sign-script", sut.SIGN_SCRIPT(), "--kms-script", sut.KMS_SCRIPT()], d)
                 if not ok:
@@ -146,7 +160,7 @@ def judge(case, acc, ctx):
             raised = e
         fixed, named = [k for k in cb.loads(data).value.keys() if isinstance(k, int)], [k for k in cb.loads(data).value.keys() if isinstance(k, str)]
         rich = bool(named) or any(k in fixed for k in (15, 16, 17, 18, 20, 23))
-        classes = [f"alg:{alg}", f"enc:{enc}", f"ctx:{ctxform}", f"route:{route}", f"kid:{kid_class(kid)}"] + (["rich-envelope"] if rich else [])
+        classes = [f"alg:{alg}", f"enc:{enc}", f"ctx:{ctxform}", f"route:{route}", f"kid:{kid_class(kid)}"] + (["rich-envelope"] if rich else []) + (["key-name:dotted"] if kname != "signer" else [])
         if raised is not None:
             if enc == "der":
                 acc.case(classes=classes + [f"rejected_der:{type(raised).__name__}"])
